@@ -148,6 +148,18 @@ PROPS['C16'] = {
     'level_text': 'bounded model checking of the position -> (line, start, end) function against the definition of "the line containing p"',
     'level_note': 'partial claim; last line without trailing newline and positions on a newline are known findings',
 }
+PROPS['C12'] = {
+    'explanation': 'induction step of the layout argument: (loader) each data-parser production writes exactly the cells (DS*16 + counter + i) mod 2^20 with the '
+                   'specified bytes (words low byte first, DW strings zero-extended), nothing else, and advances its counter by the size; (assembler) each directive records '
+                   'its label at the current counter, advances the counter by the same size and diagnoses a segment that would exceed 64 KiB; VM::new() all-zero is C19',
+    'bounds': 'loader arrays: n <= 4 elements (quick) / 16 (thorough), strings from a fixed set of 4 (lengths 0-3), unwinding assertions on; counter < 2^17; the assembler side is loop-free: all n <= 65535 and all counters',
+    'outside': 'vm.arch.ds = 0 before execution and the loop that feeds the data lines (inside CMDDriver::run); longer arrays/strings than the bound',
+    'backends': [(r'^c12_loader|^c12_twin', [('z3', 'cvc5'), 'sat-arrays']), (r'.*', ['sat', 'z3'])],
+    'timeout': {'quick': 600, 'thorough': 2400},
+    'assumptions': ['string bodies: the assembler class [[:print:]] is a subset of the loader class [[:ascii:]] (regex classes, read from the grammars)'],
+    'level_text': 'bounded model checking of one directive from an arbitrary loader / assembler state (the inductive step); the composition over a sequence of directives is the induction, stated in DESIGN.md',
+    'level_note': 'trusted: Kani/CBMC/solver soundness; loader loop bound as stated',
+}
 
 NOT_APPLICABLE = {
     'C13': 'macro definition/use is regex::Regex + a recursive call of the generated parser on heap strings; Kani cannot compile the regex engine or the LALRPOP driver (compiler ICE), and a hand model of the substitution would not be the real code',
